@@ -217,8 +217,10 @@ def main():
             print("  failing input: %s" % json.dumps(f, default=str)[:600])
     ev["violations"] = len(failing) + (1 if problems and not failing else 0)
     ev["wall_s"] = round(time.time() - t0, 2)
-    os.makedirs(os.path.join(vlib.VERIF, "evidence"), exist_ok=True)
-    json.dump(ev, open(os.path.join(vlib.VERIF, "evidence", pid + ".json"), "w"), indent=1, default=str)
+    # evidence describes a run against /repo; a development run against a scratch copy (VERIF_REPO) keeps its record apart
+    evdir = os.path.join(vlib.VERIF, "evidence") if vlib.REPO == "/repo" else os.path.join(vlib.BUILD, "scratch_evidence")
+    os.makedirs(evdir, exist_ok=True)
+    json.dump(ev, open(os.path.join(evdir, pid + ".json"), "w"), indent=1, default=str)
     print("%s %s: obligations %d/%d, implementation cases %d (distinct %d), model lines %d, mismatches %d, direct violations %d, %.0fs -> %s" % (
         pid, tier, cov.get("discharged", 0), cov["obligations"], total_eval, total_distinct, model_lines, len(mism_all), len(direct), time.time() - t0, "OK" if rc == 0 else "VIOLATION"))
     sys.exit(rc)
